@@ -98,6 +98,13 @@ type DecimateState struct {
 // ConfigurePulseLengths sets this stream's pulse length and # of presamples.
 // Also removes any existing projectors and basis.
 func (dsp *DataStreamProcessor) ConfigurePulseLengths(nsamp, npre int) error {
+	// Refuse lengths that the edge-multi trigger in use cannot work with before anything is changed:
+	// a refused request must leave the channel as it was.
+	emt := dsp.EMTState
+	emt.nsamp, emt.npre = int32(nsamp), int32(npre)
+	if dsp.EdgeMulti && !emt.valid() {
+		return fmt.Errorf("dsp.EMTState in invalid")
+	}
 	// if nsamp or npre is invalid, panic, do not silently ignore
 	if dsp.NSamples != nsamp || dsp.NPresamples != npre {
 		dsp.removeProjectorsBasis()
@@ -118,6 +125,13 @@ func (dsp *DataStreamProcessor) ConfigurePulseLengths(nsamp, npre int) error {
 
 // ConfigureTrigger sets this stream's trigger state.
 func (dsp *DataStreamProcessor) ConfigureTrigger(state TriggerState) error {
+	// Refuse an invalid edge-multi state before anything is changed: a refused request must leave
+	// the channel's trigger as it was.
+	emt := state.EMTState
+	emt.nsamp, emt.npre = int32(dsp.NSamples), int32(dsp.NPresamples)
+	if state.EdgeMulti && !emt.valid() {
+		return fmt.Errorf("dsp.EMTState in invalid")
+	}
 	dsp.TriggerState = state
 	// forget the Last Trigger, so that all channels will auto trigger
 	// at the same starting point when you send new trigger settings
